@@ -512,7 +512,7 @@ class PathRunner(object):
 class DenyRunner(object):
     """The deny-list world W2/{root, out}: every declarative factory is evaluated by dr.run under a recording host
     context with the Hydration.make_persister observer, after insights.collect.apply_blacklist(cfg)."""
-    FILES = {"/x/ab": "1", "/x/my b": "2", "/x/c": "3", "/etc/hosts": "4", "/etc/fstab": "5"}
+    FILES = {"/x/ab": "1", "/x/my b": "2", "/x/c+(1).repo": "3", "/etc/hosts": "4", "/etc/fstab": "5"}
     SAVE_AS = {"none": None, "file": "sv/x", "dir": "sv/", "absfile": "/sv/x", "absdir": "/sv/", "bare": "sv"}
     LAY = dict(fs=[dict(k="dir", p=1, n="", abs=False, segs=[]), dict(k="dir", p=1, n="root", abs=False, segs=[]),
                    dict(k="dir", p=1, n="out", abs=False, segs=[])], root=["root"], out=3)
@@ -537,7 +537,7 @@ class DenyRunner(object):
             st = os.stat(p)
             self.ino[(st.st_dev, st.st_ino)] = rel
         self.stats = dict(collects=0, items=0, accessed=0, really_executed=0, docs=0, fpersists=0, datafiles=0,
-                          blocked=0, blank_items=0)
+                          blocked=0, blank_items=0, meta_items=0, deep_items=0)
         self.cache = {}
 
     def factory(self, fac, kind, saveas, items):
@@ -567,8 +567,8 @@ class DenyRunner(object):
             f = sf.foreach_execute(items_provider, "/bin/echo %s", context=HostContext)
             prov = [x.split(" ", 1)[1] for x in strs]
         elif fac == "container_execute":
-            f = sf.container_execute(items_provider, "ls -l", context=HostContext)
-            prov = [("img", "podman", i["w"][2]) for i in items]
+            f = sf.container_execute(items_provider, "ls -l %s", context=HostContext)
+            prov = [("img", "podman", i["w"][2], i["w"][5]) for i in items]
         elif fac == "container_collect":
             f = sf.container_collect(items_provider, context=HostContext)
             prov = [("img", "podman", i["w"][2], i["w"][4]) for i in items]
@@ -645,9 +645,11 @@ class DenyRunner(object):
                 self.stats["blank_items"] += int(len(w) > 1)
             else:
                 acc = any(a[-len(w):] == w for a in execd if len(a) >= len(w))
-            items.append(dict(t=it["t"], w=w, acc=acc))
+            items.append(dict(t=it["t"], w=w, acc=acc, cls=it.get("cls", "plain")))
             self.stats["items"] += 1
             self.stats["accessed"] += int(acc)
+            self.stats["meta_items"] += int(it.get("cls") == "meta")
+            self.stats["deep_items"] += int(it.get("cls") == "deep")
         self.stats["really_executed"] += sum(1 for k, a, _ in aud if k == "exec" and any("/bin/echo" in x or "/bin/date" in x for x in a))
         md = os.path.join(self.out, "meta_data")
         self.stats["docs"] += len(os.listdir(md)) if os.path.isdir(md) else 0
